@@ -75,7 +75,13 @@ def run(ck):
             order_dep_model = sw in mr["res_alt"]
             if dd > 1 or dv > 1:
                 nontrivial.add((c["rule"], sw))
-            if dv > 1 or (sw in dets2 and dets2[sw][4] != first):
+            # the property is about VERDICTS (match / no match); a false/missing flip at the root is
+            # not one (it would be under a `not`, which is then part of the rule and shows here)
+            proj = lambda s: "".join("t" if ch == "t" else ("p" if ch in "px" else "n") for ch in s)
+            verdicts = set(proj(s) for s in e[4:])
+            if dv > 1 and len(verdicts) == 1:
+                ck.count("three_valued_flip_without_verdict_change")
+            if len(verdicts) > 1 or (sw in dets2 and proj(dets2[sw][4]) != proj(first)):
                 acc = [k for k in classes.get(sw, []) if k in listed]
                 if order_dep_model and acc:
                     suppressed += 1
